@@ -50,7 +50,7 @@ PROPS = {
 PROPS['C02'] = {
     'title': 'Intersects/Contains/Within/coordinate_position agree with DE-9IM',
     'level': 'proof',
-    'verus': ['c02_ring', 'c02_position'],
+    'verus': ['c02_ring', 'c02_position', 'c02_intersects'],
     'kani': [
         ('geo', 'c02.rs', r'^c02_k_(line_coord|rect_coord|tri_intersects_coord|tri_pos|tri_accumulates|line_line|rect_rect|contains_line_coord|contains_line_line|contains_rect|contains_tri_coord)$', 'complete', 'quick'),
         ('geo', 'c02.rs', r'^c02_k_rect_line$', 'complete', 'thorough'),
@@ -67,6 +67,10 @@ PROPS['C02'] = {
         'C02.V.value_in_range': r'^c02_k_(line_coord|ring_pos)',
         'C02.V.rect_position': r'^c02_k_rect_coord',
         'C02.V.coord_position': r'^c02_k_line_coord',
+        'C02.V.coord_intersects_coord': r'^c02_k_line_coord',
+        'C02.V.line_intersects_coord': r'^c02_k_line_coord',
+        'C02.V.rect_intersects_coord': r'^c02_k_rect_coord',
+        'C02.V.rect_intersects_rect': r'^c02_k_rect_rect',
     },
     'trusted': ['assumed contract of the Kernel trait: orient2d returns the exact sign (robust::orient2d for floats; default body verified for integers in C03)',
                 'Vec-returning twin of LineString::lines() (element i = Line{start: s[i], end: s[i+1]})'],
@@ -154,7 +158,7 @@ PROPS['C17'] = {
 PROPS['C03'] = {
     'title': 'Orientation and point-location predicates are exact for all f64 input',
     'level': 'proof',
-    'verus': ['c03_kernel', 'c02_ring', 'c02_position'],
+    'verus': ['c03_kernel', 'c02_ring', 'c02_position', 'c02_intersects'],
     'kani': [
         ('geo', 'c11.rs', r'^c03_k_float_kernel_is_exact$', 'complete', 'quick'),
         ('geo', 'c02.rs', r'^c03_k_simple_kernel_i16$', 'complete', 'quick'),
